@@ -39,7 +39,8 @@ struct MockN2k : public tNMEA2000 {
     Frame f; f.id = id; f.len = len; memset(f.buf, 0, 8); memcpy(f.buf, buf, len > 8 ? 8 : len); f.t = g_now; sent.push_back(f);
     return true;
   }
-  bool CANOpen() override { return openOk; }
+  int64_t openedAt = -1; long openCalls = 0;     // virtual time of the first successful CANOpen()
+  bool CANOpen() override { ++openCalls; if (openOk && openedAt < 0) openedAt = (int64_t)g_now; return openOk; }
   bool CANGetFrame(unsigned long &id, unsigned char &len, unsigned char *buf) override {
     if (rxq.empty()) return false;
     Frame f = rxq.front(); rxq.pop_front(); id = f.id; len = f.len; memcpy(buf, f.buf, 8); return true;
